@@ -73,8 +73,9 @@ def main():
             jobs_n = int(a.pop(0))
     jobs = []
     for sid in sorted(os.listdir(os.path.join(VERIF, "seeded"))):
-        if os.path.exists(os.path.join(VERIF, "seeded", sid, "patch.diff")) and (props is None or sid in props):
-            jobs.append(("seed", sid, "detect", seed_apply(sid), "seeded/" + sid))
+        prop = sid[:3]  # seeded/C01 (first round), seeded/C01b (second round) ... all belong to property C01
+        if os.path.exists(os.path.join(VERIF, "seeded", sid, "patch.diff")) and (props is None or prop in props):
+            jobs.append(("seed", prop, "detect", seed_apply(sid), "seeded/" + sid))
     for prop, expect, file, old, new, note in MUTANTS:
         if props is None or prop in props:
             jobs.append(("mutant", prop, expect, mutant_apply(file, old, new), note))
